@@ -464,6 +464,16 @@ class FileOutput:
         self.fd = None
 
 
+def delimited(opening, content, closing):
+    # keep nested angle delimiters apart, "<<<<>>>>" would be read
+    # back as the tokens "<<<" "<" ">>>" ">"
+    if content.startswith("<"):
+        opening += " "
+    if content.endswith(">"):
+        closing = " " + closing
+    return opening + content + closing
+
+
 class Value:
     def __init__(self):
         self.info = ""
@@ -1091,15 +1101,15 @@ class ValueMap(Value):
         return str(self) < str(other)
 
     def __repr__(self):
-        return (
-            "<<<"
-            + ", ".join(
+        return delimited(
+            "<<<",
+            ", ".join(
                 [
                     f"{key} => {self.value[key]}"
                     for key in self.getSortedKeys()
                 ]
-            )
-            + ">>>"
+            ),
+            ">>>"
         )
 
     def addMap(self, map_):
@@ -1436,10 +1446,10 @@ class ValueSet(Value):
         return str(self) < str(other)
 
     def __repr__(self):
-        return (
-            "<<"
-            + ", ".join([str(item) for item in self.getSortedItems()])
-            + ">>"
+        return delimited(
+            "<<",
+            ", ".join([str(item) for item in self.getSortedItems()]),
+            ">>"
         )
 
     def addItem(self, item):
